@@ -71,6 +71,16 @@ def gen_plan(ch: Chooser, tier: str) -> dict[str, Any]:
                                   'lifecycle': None})
         plan['actions'].append({'t': ch.choice([0.0, 0.0, 3.0]), 'do': 'start', 'op': 'op2'})
         plan['actions'].sort(key=lambda a: a['t'])
+    if ch.bool(0.35):
+        # an object without any payload, labels or annotations: its essence is empty
+        plan['objects'].append({'kind': 'widgets', 'body': {'metadata': {'name': 'bare'}}})
+        for k in range(ch.int(1, 4)):
+            a = changes.gen_edit(ch, 'bare', 900 + k, ch.choice(['status', 'label', 'status', 'other-kopf-annotation',
+                                                                  'foreign-finalizer', 'spec']))
+            a = changes.fix_sub(a, plan['kinds'][0].get('status_subresource', False))
+            a['t'] = round(ch.float(1.0, plan['faults_stop']), 6)
+            plan['actions'].append(a)
+        plan['actions'].sort(key=lambda a: a['t'])
     plan['until'] = plan['faults_stop'] + 90.0
     return plan
 
